@@ -52,6 +52,10 @@ class _TemplateBuildDistinguisherMixin(partitioned._PartitionnedDistinguisherBas
         if not hasattr(self, '_timings'):
             self._timings = [-2, -1]
         function_idx = _np.argmin(self._timings)
+        if partitioned._VERIF and partitioned._VERIF_FORCE_KERNEL:
+            function_idx = partitioned._VERIF_FORCE_KERNEL.pop(0)
+        if partitioned._VERIF:
+            partitioned._VERIF_KERNEL_LOG.append(int(function_idx))
         function = [self._accumulate_core_1, self._accumulate_core_2][function_idx]
         t0 = _time.process_time()
         function(traces, data, self._exi, self._exxi, self._counters, _np.dtype(self.precision).type)
